@@ -211,6 +211,29 @@ SPECS["C18"] = {
     "assumptions": [],
 }
 
+GOLANG = {"dir": "/repo/compiler/generator/golang", "overlay": "golang"}
+DARTLANG = {"dir": "/repo/compiler/generator/dartlang", "overlay": "dartlang"}
+
+SPECS["C11"] = {
+    "level": "model_checking",
+    "groups": [
+        dict(PARSER, entries=[
+            {"name": "VerifC11_TypedefResolution", "flags": ["-unwind-violation", "-max-decisions", "1500"], "quick": {"params": [0, 1]}, "thorough": {"params": [0, 1, 2], "flags": ["-par", "6"]},
+             "expect_reach": ["end", "accepted", "rejected"]},
+        ]),
+        dict(GOLANG, entries=[
+            {"name": "VerifC11_GoIdentifiers", "quick": {"params": [1, 2, 3, 4], "procs": 4}, "thorough": {"params": [1, 2, 3, 4, 5], "procs": 5, "flags": ["-par", "3"]}},
+        ]),
+        dict(DARTLANG, entries=[
+            {"name": "VerifC11_DartIdentifiers", "quick": {"params": [1, 2, 3, 4], "procs": 4}, "thorough": {"params": [1, 2, 3, 4, 5, 6], "procs": 6}},
+        ]),
+    ],
+    "level_text": "KERNEL SCOPE ONLY. The full statement (every valid program x target x option set compiles to well-formed source; every other text gives a diagnostic) runs through the PEG parser, eight generators, file I/O and goimports and cannot be encoded; what is decided here are the pure mechanisms the property anchors: (1) the real Frugal.validate() + UnderlyingType/IsStruct/IsUnion/IsEnum on programs with k <= 2 (3) typedefs whose targets are ARBITRARY (a base type, a struct, any typedef incl. itself, a list/map of those, an unknown name - symbolic 3-byte names): whenever validate accepts, type resolution terminates within the unwinding bound (exceeding it IS the counterexample, replayed natively as a fatal stack overflow) and yields a non-typedef; (2) the Go generator's identifier helpers snakeToCamel/title/titleServiceName/startsWithInitialism/includeNameToReference/includeNameToImport and (3) the Dart generator's snakeToCamel/toFileName/toScreamingCapsConstant/toFieldName/lowercaseFirstCharacter/toLibraryName on EVERY grammar-valid identifier (Letter|_)(Letter|Digit|_)* of length 1..4 (5-6): no panic. Outside (not claimed): parser totality, well-formedness of generated files, Java/Python/HTML/JSON generators, option handling.",
+    "level_note": "Trusted: go/ssa, gose interpreter (path witnesses re-run natively), z3. strings/unicode are executed from their real SSA; ASCII runes stay symbolic, a non-ASCII rune would be concretised (identifiers are ASCII by the grammar).",
+    "bounds": {"quick": "k <= 2 typedefs; identifiers of 1..4 characters", "thorough": "k <= 3 typedefs; identifiers up to 5 (Go) / 6 (Dart) characters"},
+    "assumptions": ["identifier alphabet as in grammar.peg (ASCII letters, digits, underscore; dots excluded)"],
+}
+
 OVERLAYS = {}
 
 HOOK_COMMITS = []
